@@ -34,7 +34,7 @@ EXHAUSTIVE = {'quick': False, 'thorough': False}
 
 
 def cases(tier, seed):
-    n = 420 if tier == 'quick' else 8000
+    n = 420 if tier == 'quick' else 20000
     cs = []
     for i in range(n):
         cs.append({'prog_seed': seed * 1000003 + i, 'seed': seed * 104729 + i,
